@@ -191,7 +191,10 @@ class Env:
 
 class LoopSpec:
     def __init__(self, inv=(), modifies=(), locals=None, ghost_init=None, ghost_end=None, decreases=None,
-                 ghost_pre=None):
+                 ghost_pre=None, live=False):
+        # live: a `for` over a list that the body changes: the iteration follows Python's list iterator (the element at the
+        # running index of the list as it is now, until the index reaches the current length); `_i` is that index
+        self.live = live
         self.inv, self.modifies = list(inv), list(modifies)
         self.locals = locals or {}
         self.ghost_init, self.ghost_end, self.decreases, self.ghost_pre = ghost_init, ghost_end, decreases, ghost_pre
@@ -1635,8 +1638,17 @@ class Engine:
     def exec_For(self, node, env):
         from .builtins import make_iter
         lid = self.next_loop_id(node)
-        itv = make_iter(self, self.eval(node.iter, env))
-        if itv.concrete is not None or isinstance(itv.n, int):
+        src = self.eval(node.iter, env)
+        spec0 = self.loop_specs.get('L' + lid)
+        if spec0 is not None and spec0.live:
+            if not (isinstance(src, Box) and isinstance(src.ty, TSeq) and src._fwd is None):
+                raise EngineError('a live loop needs a list variable to iterate')
+            itv = IterV(None, lambda i, _b=src: wrap(_b.ty.t, _b.ty.at(_b.e, _int(i))))
+            itv.live = src
+        else:
+            itv = make_iter(self, src)
+        itv.src_box = src if isinstance(src, Box) else None
+        if getattr(itv, 'live', None) is None and (itv.concrete is not None or isinstance(itv.n, int)):
             items = itv.concrete if itv.concrete is not None else [itv.get(i) for i in range(itv.n)]
             self.loop_ctr.append(0)
             try:
@@ -1707,7 +1719,8 @@ class Engine:
         if is_for:
             env.vars['_i'] = 0
             env.vars['_i' + tag.replace('.', '_')] = 0
-            env.vars['_n' + tag.replace('.', '_')] = self.numval(itv.n)
+            if getattr(itv, 'live', None) is None:
+                env.vars['_n' + tag.replace('.', '_')] = self.numval(itv.n)
             # _it<loop>(q): the q-th element of the traversal (e.g. of the arbitrary enumeration of a set)
             env.vars['_it' + tag.replace('.', '_')] = Builtin(
                 lambda e, q, _itv=itv: _itv.get(q.e if isinstance(q, SV) else (z3.IntVal(q) if isinstance(q, int) else q)), '_it' + tag)
@@ -1742,10 +1755,16 @@ class Engine:
         for m in spec.modifies:
             self.havoc_path(m, env, spec.locals)
         hv_ids = set(self._hv_ids)
+        live = getattr(itv, 'live', None) if is_for else None
+        if is_for and live is None and getattr(itv, 'src_box', None) is not None and id(itv.src_box) in hv_ids:
+            raise EngineError('loop %s changes the list it iterates: its specification has to say live=True' % tag)
         if which == 'iter':
             if is_for:
                 k = self.fresh(TInt, 'k' + tag)
-                self.assume(z3.And(0 <= k, k < itv.n))
+                if live is None:
+                    self.assume(z3.And(0 <= k, k < itv.n))
+                else:
+                    self.assume(z3.And(0 <= k, k < live.ty.len(live.e)))
                 kv = SV(TInt, k)
                 env.vars['_i'] = kv
                 env.vars['_i' + tag.replace('.', '_')] = kv
@@ -1808,6 +1827,24 @@ class Engine:
                 self.oblige(z3.And(dec0 >= 0, dec1 < dec0), 'decreases:%s' % tag, ln)
             raise PathEnd()
         # exit path
+        if live is not None:
+            m_ = self.fresh(TInt, 'm' + tag)
+            mv = SV(TInt, m_)
+            env.vars['_i'] = mv
+            env.vars['_i' + tag.replace('.', '_')] = mv
+            for name in sorted(tnames):
+                if name in env.vars:
+                    try:
+                        env.vars[name] = self.havoc_value(env.vars[name], spec.locals.get(name), name)
+                    except EngineError:
+                        del env.vars[name]
+            for inv in spec.inv:
+                self.assume(self._b(self.spec_truth(inv, env)))
+            self.assume(z3.And(m_ >= 0, m_ >= live.ty.len(live.e)))
+            self.feasible()
+            self.exec_block(node.orelse, env)
+            self._restore_i(env, outer_i)
+            return
         if is_for and tnames:
             # the loop variable keeps the last element (if there was one)
             nz = _int(itv.n) > 0 if not isinstance(itv.n, int) else itv.n > 0
